@@ -107,6 +107,27 @@ def tokens : Nat → Bytes → List Bytes
       | [] => [w]
       | _ :: r' => w :: tokens fuel r'           -- the blank is overwritten by NUL and skipped
 
+/-! ### parameter splitting on the *output* side (the server reading what the daemon wrote):
+     IRC style, only the blank separates, ':' starts the trailing parameter -/
+
+def dropBlanks : Bytes → Bytes
+  | 32 :: cs => dropBlanks cs
+  | s => s
+
+def takeParam : Bytes → Bytes × Bytes
+  | [] => ([], [])
+  | c :: cs => if c == 32 then ([], c :: cs) else let (w, r) := takeParam cs; (c :: w, r)
+
+def otokens : Nat → Bytes → List Bytes
+  | 0, _ => []
+  | fuel + 1, s =>
+    let d := dropBlanks s
+    if d.isEmpty then []
+    else if d.head? == some 58 then [d.tail]          -- ':' swallows the rest of the line
+    else
+      let p := takeParam d
+      if p.2.isEmpty then [p.1] else p.1 :: otokens fuel p.2.tail
+
 structure Line where
   id : Int
   argv : List Bytes
